@@ -805,7 +805,7 @@ def config_st(profile):
             [None, None, ['polling'], ['websocket'], ['polling', 'websocket']])),
         'async_handlers': profile.get('async_handlers', st.booleans()),
         'monitor_clients': profile.get('monitor_clients', st.sampled_from([True, True, False])),
-        'http_compression': st.just(False),
+        'http_compression': profile.get('http_compression', st.just(False)),
     })
 
 
@@ -1093,9 +1093,24 @@ class Drawer:
                                    [['Connection', 'Upgrade']],
                                    [['Upgrade', 'websocket'], ['Connection', 'keep-alive']]]))
             return {'op': 'request', 's': i, 'method': 'GET', 'query': q, 'headers': h}
+        if d(st.integers(0, 11)) == 0:
+            # an error answer long enough to be compressed, on plain and WebSocket requests
+            a = {'op': 'request', 's': i,
+                 'method': d(st.sampled_from(['GET', 'GET', 'GET', 'POST', 'PUT'])),
+                 'query': 'transport=%s&EIO=4&sid=%s' % (
+                     d(st.sampled_from(['polling', 'websocket'])), 'L' * 1100),
+                 'headers': [['Accept-Encoding', d(st.sampled_from([
+                     'gzip', 'deflate', 'gzip, deflate', 'GZIP', 'br, GZip', 'deflate;q=0.5']))]]}
+            if a['method'] == 'GET' and d(st.booleans()):
+                a['ws'] = True
+            elif a['method'] == 'POST':
+                a['body'] = rm.tag('4x')
+            return a
         method = d(st.sampled_from(['GET', 'GET', 'POST', 'POST', 'OPTIONS', 'PUT', 'DELETE', 'HEAD',
                                     'PATCH']))
-        sidv = d(st.sampled_from(['{sid}', '{sid}', '{sid}', 'nosuchsid', '', None]))
+        sidv = d(st.sampled_from(['{sid}', '{sid}', '{sid}', '{sid}', '{sid}', '{sid}', 'nosuchsid',
+                                  'nosuchsid', '', '', None, None,
+                                  'L' * 1100]))      # (an error body over the compression threshold)
         parts = []
         tr = d(st.sampled_from(['polling', 'polling', 'websocket', None, 'bogus', 'Polling', '']))
         if tr is not None:
@@ -1117,8 +1132,10 @@ class Drawer:
         if d(st.integers(0, 5)) == 0:
             hdrs.append(['Origin', d(st.sampled_from(['http://localhost', 'http://evil.example',
                                                       '']))])
-        if d(st.integers(0, 5)) == 0:
-            hdrs.append(['Accept-Encoding', d(st.sampled_from(['gzip', 'deflate', 'br']))])
+        if d(st.integers(0, 3)) == 0:
+            hdrs.append(['Accept-Encoding', d(st.sampled_from([
+                'gzip', 'deflate', 'br', 'GZIP', 'Deflate', 'gzip;q=0.5', 'br, GZip', 'deflate, gzip',
+                '*', 'identity', '']))])
         if d(st.integers(0, 7)) == 0:
             hdrs.append(['Upgrade', d(st.sampled_from(['websocket', 'h2c', 'WebSocket']))])
             if d(st.booleans()):
